@@ -62,7 +62,13 @@ _iov("C03", "OwningIovec is a faithful FIFO byte pipe", [], [], ["C03"], ["A", "
 _iov("C04", "Pending backpatches are never observable; filled ones unblock everything", [], [], ["C04"], ["A", "R"],
      "Kernel-checked theorems on the structural model: the stable prefix never contains a pending placeholder or later bytes; "
      "ok-iff-no-pending; all-filled unblocks; correspondence + shadow-buffer oracle with placeholders.")
-_iov("C05", "Every slice handed out points into live memory", [], [], ["C05"], ["A", "S", "T", "L", "R"],
+_iov("C05", "Every slice handed out points into live memory",
+     ["Woodpile.Props.C05.slice_guarded",
+      "Woodpile.Props.C05.detached_anchored",
+      "Woodpile.Props.C05.cache_holds_chunk",
+      "Woodpile.Props.C05.exposed_live",
+      "Woodpile.Props.C05.released_only_when_unreachable"],
+     ["Woodpile.Props.C05"], ["C05"], ["A", "S", "T", "L", "R"],
      "Kernel-checked ownership invariant on the structural model (every exposed owned slice is guarded by an anchor holding its chunk; "
      "derived liveness); correspondence of slice placement and live-chunk set with the real allocator through hook H1; containment oracle.",
      " PARTIAL BY NATURE: memory safety of the compiled unsafe code is sampled (registry + debug poisoning), not proved.")
